@@ -349,6 +349,8 @@ def nesting_profile(f, builtin=False):
             # the remaining value-level shape of bookkeeping code: integer literals, `?`, casts, range constructors
             if k == 'lit' and str(n.get('v', '')).startswith('i:'):
                 prof.setdefault('literal ' + str(n['v'])[2:], []).append(d)
+            elif k == 'lit' and str(n.get('v', '')).startswith('bool:'):
+                prof.setdefault('literal ' + str(n['v'])[5:], []).append(d)          # a flag handed to a call (compressed / checked / is_identity ..)
             elif k == 'try':
                 prof.setdefault('operator ?', []).append(d)
             elif k == 'assign':
@@ -418,6 +420,51 @@ def use_profile(f):
             if l.get('k') == 'local':
                 mutated.add(l['i'])
 
+    # locals bound by a destructuring pattern (match arm, if let, let (a, b) = .., for (a, b) in .., closure |(a, b)|): named by their POSITION in the pattern
+    # (`pat Product.1`, `pat .0`, `pat Point.x`), never by their name — two values that come out of one pattern are no longer the same origin
+    patpos = {}
+
+    def name_pat(p_, path):
+        k_ = p_.get('k')
+        if k_ == 'bind':
+            if path and p_['i'] not in params:
+                patpos.setdefault(p_['i'], 'pat ' + path)
+            if 'sub' in p_:
+                name_pat(p_['sub'], path)
+        elif k_ == 'ts':
+            v = short(norm_(p_.get('p') or '')).rsplit('::', 1)[-1]
+            for j_, s_ in enumerate(p_.get('subs', [])):
+                name_pat(s_, f'{v}.{j_}')
+        elif k_ == 'tuple':
+            for j_, s_ in enumerate(p_.get('subs', [])):
+                name_pat(s_, f'{path}.{j_}' if path else f'.{j_}')
+        elif k_ == 'struct':
+            v = short(norm_(p_.get('p') or '')).rsplit('::', 1)[-1]
+            for fs_ in p_.get('fs', []):
+                name_pat(fs_[1], f'{v}.{fs_[0]}')
+        elif k_ in ('ref', 'guard'):
+            name_pat(p_['sub'], path)
+        elif k_ == 'or':
+            for s_ in p_.get('subs', []):
+                name_pat(s_, path)
+
+    def find_pats(n_):
+        if isinstance(n_, dict):
+            pt = n_.get('pat')
+            if isinstance(pt, dict) and pt.get('k') != 'bind':
+                name_pat(pt, '')
+            if n_.get('k') == 'closure':
+                for q in n_.get('params', []):
+                    if isinstance(q, dict) and q.get('k') != 'bind':
+                        name_pat(q, '')
+            for v_ in n_.values():
+                if isinstance(v_, (dict, list)):
+                    find_pats(v_)
+        elif isinstance(n_, list):
+            for v_ in n_:
+                find_pats(v_)
+    find_pats(f['body'])
+
     def origin(e, hops=0, nest=0):
         """hops: `let` bindings followed (bounded, helper expansion adds a few); nest: 1 while naming the inputs of a producing call (one level only)"""
         e = peel(e)
@@ -446,7 +493,7 @@ def use_profile(f):
                     if 'Layouter' in t or 'Region' in t:
                         continue
                     o = origin(a, hops, 1)
-                    if o.startswith(('#', 'const ', '(')) and o != '#0':
+                    if o.startswith(('#', 'const ', '(', 'pat ')) and o != '#0':
                         inner.append(o)
             return 'result of ' + short(c) + ('(' + ', '.join(inner) + ')' if inner else '')
         if k in ('bin', 'un') and e.get('f'):
@@ -455,7 +502,7 @@ def use_profile(f):
             # built-in arithmetic handed to a call (a bound, a width, an offset): its shape over named leaves, e.g. `((const M + literal) - #3)`
             if nest < 3:
                 a_, b_ = origin(e['a'], hops, max(nest, 1) + 1), origin(e['b'], hops, max(nest, 1) + 1)
-                if any(x.startswith(('#', 'const ', 'result of', '(')) for x in (a_, b_)):
+                if any(x.startswith(('#', 'const ', 'result of', '(', 'pat ')) for x in (a_, b_)):
                     return '(' + a_ + ' ' + str(e['op']) + ' ' + b_ + ')'
             return 'expr'
         if k == 'field' and not str(e.get('n', '')).isdigit():
@@ -471,6 +518,8 @@ def use_profile(f):
                 return 'mutable local'
             if i in lets and hops < 10:
                 return origin(lets[i], hops + 1, nest)
+            if i in patpos:
+                return patpos[i]
             return 'local'
         if k == 'closure':
             return 'closure'
@@ -585,6 +634,8 @@ OPS_SCOPES = {
     'C09': (['proofs', 'circuits', 'zk_stdlib'], ('proofs/src/plonk/keygen.rs', 'proofs/src/plonk/prover.rs', 'proofs/src/circuit/', 'proofs/src/dev/cost_model.rs',
                                                   'circuits/src/field/native/native_chip.rs', 'circuits/src/ecc/', 'circuits/src/vec/', 'circuits/src/map/',
                                                   'circuits/src/field/foreign/field_chip.rs', 'zk_stdlib/src/lib.rs')),
+    'C12': (['curves', 'proofs'], ('curves/src/msm.rs', 'curves/src/fft.rs', 'proofs/src/poly/domain.rs', 'proofs/src/poly/mod.rs', 'proofs/src/utils/arithmetic.rs',
+                                   'proofs/src/utils/rational.rs', 'proofs/src/poly/kzg/msm.rs', 'proofs/src/poly/kzg/params.rs')),
     'C14': (['proofs', 'circuits'], ('proofs/src/poly/', 'proofs/src/utils/arithmetic.rs', 'circuits/src/verifier/kzg.rs')),
     'C15': (['proofs', 'circuits', 'zk_stdlib'], ('proofs/src/poly/commitment.rs', 'proofs/src/poly/kzg/', 'circuits/src/verifier/accumulator.rs', 'circuits/src/verifier/msm.rs',
                                                    'zk_stdlib/src/lib.rs')),
@@ -618,8 +669,10 @@ def ops_functions(w, prop):
     for f in w.all_fns(crates):
         if '::tests::' in f['_nid'] or '/tests' in f['file'] or f['file'].endswith('tests.rs') or not f['file'].startswith(prefixes) or seen[f['_xid']] > 1:
             continue
-        if prop == 'C08' and not any(t in (f.get('name') or '') for t in ('public_input', 'publish', 'format_instance', 'committed_scalars', 'transcript_repr', 'from_parts', 'hash_into')):
-            continue            # the encoders and binders of public inputs, wherever they live
+        if prop == 'C08' and not any(t in (f.get('name') or '') for t in ('public_input', 'publish', 'format_instance', 'committed_scalars', 'transcript_repr', 'from_parts', 'hash_into')) \
+                and not f['file'].endswith(('circuits/src/verifier/msm.rs', 'circuits/src/verifier/accumulator.rs', 'circuits/src/instructions/public_input.rs',
+                                            'zkir/src/instructions/operations/publish.rs', 'circuits/src/biguint/types.rs', 'circuits/src/utils/types.rs')):
+            continue            # the encoders and binders of public inputs, wherever they live, and the whole of the anchor files that only deal with exposed values
         yield f
 
 
